@@ -1,9 +1,9 @@
 #!/bin/sh
 # runs every seeded change against the quick check of its own property; one line per seed in build/seed_matrix.log
-cd /verif; : > build/seed_matrix.log
+cd /verif; LOG=${LOG:-build/seed_matrix.log}; : > $LOG
 for p in 01 02 03 04 05 06 07 08 09 10 11 12 13 14 15 16 17 18 19 20; do for x in a b; do
   d=${SEEDROOT:-/tmp/seed}/C$p/$x
   [ -f $d/patch.diff ] || continue
-  tools/try_seed.sh $d C$p >> build/seed_matrix.log 2>&1
+  tools/try_seed.sh $d C$p >> $LOG 2>&1
 done; done
-echo DONE >> build/seed_matrix.log
+echo DONE >> $LOG
